@@ -31,6 +31,14 @@ CLAIMS = {
          "of the solver constructor. No bound on inputs or histories; loops by contract / arbitrary-iteration slice."),
    design='6 C04', technique='contract-based deductive verification: own VC generator over the clang AST (heap model, callee contracts, loop-body contracts) + SMT',
    note=NOTE_COMMON + " log/exp uninterpreted; std::remove_if/erase by the standard's specification; two callee frames assumed here and proved under C12."),
+ 'C06': dict(
+   text=("Chain of contracts on the real broad phase of the shipped contact model: constructor (padding, voxel size), face boxes (arbitrary "
+         "iteration: padded extent stored at 6*i, global box grows), box test (iff inside), grid filling (voxel range of a face from the box "
+         "corners, inside the grid; innermost iteration places the face in the visited voxel), candidate loop (candidates = list of the "
+         "node's voxel; every other-cell face whose box contains the node and passes the normal rule reaches the contact rule), plus two "
+         "arithmetic lemmas (padding lemma, monotone voxel index). Composition written in the evidence: a pair is discarded only beyond the cut-off."),
+   design='6 C06', technique='contract-based deductive verification: chain of function / loop-body / loop-prefix contracts on the clang AST with callee contracts from C20, SMT',
+   note=NOTE_COMMON + " The composition of the links and for-loop semantics are mathematics stated in the evidence; other compile-time contact models' candidate loops are unverified."),
  'C07': dict(
    text=("Contract on the real per-pair contact rule of the shipped contact model (node-node coupling), all nodes, faces, cell types and strengths "
          "symbolic, kernel through its C05 contract: action = reaction on the four nodes and nothing else written, forces only below the "
